@@ -410,6 +410,16 @@ def gen_universe(rng: random.Random, saturated: bool = False) -> World:
             spec = rng.choice(specs)  # equal content, different object
             if rng.random() < 0.4:
                 spec = (spec[0], spec[1], rng.choice(ALIASES), spec[3])
+            if rng.random() < 0.3:
+                # a look-alike whose column list is a proper prefix / extension of the original's
+                cols = list(spec[3])
+                if len(cols) > 1 and rng.random() < 0.5:
+                    cols = cols[:-1]
+                else:
+                    extra = [c for c in COLSPECS if c[0] not in [x[0] for x in cols]]
+                    if extra:
+                        cols.append(extra[0])
+                spec = (spec[0], spec[1], spec[2], tuple(cols))
         else:
             ncols = rng.randint(1, 3)
             cols = []
